@@ -349,6 +349,7 @@ impl Scenario for Chunking {
         // ---- evaluate
         for sc in &scheds {
             ctx.sub_evals += 1;
+                        ctx.tick();
             let mut io: Option<IoH> = None;
             let res: Result<(), (String, String)> = match sc.side {
                 Side::Source => match read_outcome(&store0, &sc.policy, &sc.bufs, &pw, &mut io) {
